@@ -29,6 +29,19 @@ Theorem C32_v1_roundtrip :
 Proof. exact v1_roundtrip. Qed.
 Print Assumptions C32_v1_roundtrip.
 
+(* the sender: for every schedule of partial sends (GetBytesToSend / MarkBytesSent) with enough steps, the bytes
+   handed to the socket are exactly the encoding, and then the next message can be set *)
+Theorem C32_v1_sender_emits_encoding :
+  forall (magic : list N) (H4 : list N -> list N),
+  length magic = MESSAGE_START_SIZE -> (forall p, length (H4 p) = CHECKSUM_SIZE) ->
+  forall (type payload : list N) (sched : list nat) (s0 : v1send),
+  v1_set_message_to_send magic H4 v1send_init type payload = Some s0 ->
+  length (v1_encode magic H4 type payload) <= length sched ->
+  snd (v1_pump sched s0 []) = v1_encode magic H4 type payload /\
+  (forall t p, v1_set_message_to_send magic H4 (fst (v1_pump sched s0 [])) t p <> None).
+Proof. exact v1_sender_emits_encoding. Qed.
+Print Assumptions C32_v1_sender_emits_encoding.
+
 (* a frame whose checksum field differs from the checksum of its payload is never delivered *)
 Theorem C32_v1_checksum_mismatch_rejected :
   forall (magic : list N) (H4 : list N -> list N),
@@ -54,6 +67,31 @@ Theorem C32_v1_tampered_payload_rejected :
   run v1st (v1_iter magic H4) v1_init rest (acc ++ [Rejected]).
 Proof. exact v1_tampered_payload_rejected. Qed.
 Print Assumptions C32_v1_tampered_payload_rejected.
+
+(* ANY byte stream (tampered, truncated, garbage), ANY fragmentation: the outputs are a parse of the stream into
+   frames (24 header bytes announcing the length of the payload that follows), one output per frame in order, and a
+   frame is Delivered only with the payload that stood in the stream and only if its checksum field is the checksum
+   of that payload: a message whose payload does not match its checksum is never delivered *)
+Theorem C32_v1_never_delivers_checksum_mismatch :
+  forall (magic : list N) (H4 : list N -> list N),
+  length magic = MESSAGE_START_SIZE -> (forall p, length (H4 p) = CHECKSUM_SIZE) ->
+  forall (chunks : list (list N)), small (concat chunks) ->
+  let c := node_recv_chunks (v1_iter magic H4) (Alive v1_init []) chunks in
+  exists (frames : list (list N * list N)) (rest : list N),
+    Forall frame_ok frames /\ conn_outs c = map (frame_out H4) frames /\
+    concat chunks = flat_frames frames ++ rest /\
+    forall f t p, In f frames -> frame_out H4 f = Delivered t p -> p = snd f /\ H4 p = hdr_cks (fst f).
+Proof.
+  intros magic H4 Hm Hh chunks Hs c.
+  assert (Hc : c = run _ (v1_iter magic H4) v1_init (concat chunks) []).
+  { unfold c. rewrite (v1_fragmentation magic H4 Hm Hh); auto. apply (v1_init_wf magic H4 Hm Hh). }
+  pose proof (v1_parse_sound magic H4 Hm Hh (concat chunks) Hs) as Hp. rewrite <- Hc in Hp.
+  destruct c as [s outs|outs|]; cbn [parsed] in Hp.
+  - destruct Hp as [fs [Hf [Ho Hw]]]. exists fs, (v1_pend s). repeat split; auto; eapply frame_out_delivered; eauto.
+  - destruct Hp as [fs [junk [Hf [Ho Hw]]]]. exists fs, junk. repeat split; auto; eapply frame_out_delivered; eauto.
+  - contradiction.
+Qed.
+Print Assumptions C32_v1_never_delivers_checksum_mismatch.
 
 (* wrong message start, or a size above min(MAX_SIZE, MAX_PROTOCOL_MESSAGE_LENGTH) (generated constants):
    disconnect at the 24th header byte; V1_MAX_PAYLOAD itself is accepted (v1_size_bound_exact) *)
